@@ -70,8 +70,31 @@ pub fn header_value() -> impl Strategy<Value = String> {
     ]
 }
 
+/// A (name, value) pair derived from one static-table row: the exact value, a case variant of
+/// it, or the value with a character appended / removed.
+pub fn static_pair() -> impl Strategy<Value = (String, String)> {
+    let rows: Vec<(String, String)> = rq::STATIC_TABLE.iter().filter(|r| !r.0.starts_with(':')).map(|r| (r.0.to_string(), r.1.to_string())).collect();
+    (proptest::sample::select(rows), 0u8..6).prop_map(|((n, v), m)| {
+        let v2 = match m {
+            0 => v.clone(),
+            1 => v.to_ascii_uppercase(),
+            2 => v.to_ascii_lowercase(),
+            3 => {
+                let mut c = v.chars();
+                match c.next() {
+                    Some(f) => f.to_ascii_uppercase().to_string() + c.as_str(),
+                    None => String::new(),
+                }
+            }
+            4 => format!("{v}x"),
+            _ => v.chars().skip(1).collect(),
+        };
+        (n, v2.trim().to_string())
+    })
+}
+
 fn headers_strategy(max: usize) -> impl Strategy<Value = Vec<(String, String)>> {
-    proptest::collection::vec((header_name(), header_value()), 0..=max).prop_map(|v| {
+    proptest::collection::vec(prop_oneof![3 => (header_name(), header_value()).boxed(), 1 => static_pair().boxed()], 0..=max).prop_map(|v| {
         let mut out: Vec<(String, String)> = Vec::new();
         let mut total = 200usize;
         for (n, val) in v {
